@@ -10,12 +10,14 @@
    configured pool creation fee stays below 2^127 (so fee sums stay inside u128).
    Also proved, per handler, for every input: the exact flow of funds (swap / deposit / withdrawal) and that
    rejected operations change nothing.
-   NOT proved (checked on the implementation's snapshots by Monitors.mon_C01 instead): the UPPER bound "any excess
-   comes only from donations or the odd unit of a single-asset deposit" and "the only LP tokens held are the
-   minimum liquidity".
+   The excess clause ("any excess comes only from donations or the odd unit ...; the only LP tokens held are the
+   minimum liquidity") is proved TRANSACTION BY TRANSACTION as exact equalities (theorems C01_excess_through_...): swaps,
+   withdrawals, unlocked deposits (first deposit: exactly the minimum liquidity in the LP denom), unlocked single-asset
+   deposits (exactly amount mod 2 in the deposit denom), donations. Not as theorems: the same equalities for routes,
+   locked deposits and pool creations (monitors mon_C04 / mon_C01x on the implementation).
    Statements only. *)
 From MD.Model Require Import Base Ownable Epoch PoolMath Types PoolManager FarmManager Chain.
-From MD.Proofs Require Import PoolMathProofs BankProofs SwapProofs ChainProofs PmProofs LiquidityProofs PoolCustody PoolCustodyChain NonVacuity.
+From MD.Proofs Require Import PoolMathProofs BankProofs SwapProofs ChainProofs PmProofs LiquidityProofs PoolCustody PoolCustodyChain NonVacuity SingleSided TxBalances TxExcess.
 
 Theorem C01_backed_in_every_reachable_world : forall g w0 ops,
   genesis_world g = Ok w0 -> 0 <= amount_of (fm_create_fee (g_fm g)) ->
@@ -101,6 +103,57 @@ Proof. exact step_rejected_unchanged. Qed.
 Theorem C01_hypotheses_met_by_a_real_history : nonvacuity_statement.
 Proof. exact hypotheses_satisfiable_by_a_real_history. Qed.
 
+(* THE EXCESS CLAUSE, transaction by transaction: what the pool manager holds beyond the reported reserves
+   (slackP = balance - sum of reserves, per denom) changes by EXACTLY the following amounts — no rounding dust, no stray
+   tokens. Proved for direct swaps, withdrawals, unlocked deposits of two or more assets, unlocked single-asset deposits
+   and plain bank sends; routes, locked deposits and pool creations are covered by the lower bound above and by the
+   monitors mon_C04 / mon_C01x on the implementation. *)
+Theorem C01_excess_through_a_swap : forall w sender funds ask bp ms r pid w',
+  sender <> PM ->
+  run_tx w sender PM (WPm (PmSwap ask bp ms r pid)) funds = Ok w' ->
+  exists offer sc,
+    one_coin funds = Ok offer /\ query_simulation (w_pm w) offer ask pid = Ok sc /\
+    forall d, slackP w' d = slackP w d
+                + ind (String.eqb PM (addr_or_default w r sender)) (ind (String.eqb ask d) (sc_return sc))        (* only if the trader names the pool manager itself as receiver *)
+                + ind (String.eqb PM (pm_fee_collector (pm_cfg (w_pm w)))) (ind (String.eqb ask d) (sc_protocol_fee sc)).  (* only if the owner made it its own fee collector *)
+Proof. exact swap_tx_excess. Qed.
+
+Theorem C01_excess_through_a_withdrawal : forall w sender funds pid w',
+  sender <> PM ->
+  run_tx w sender PM (WPm (PmWithdraw pid)) funds = Ok w' ->
+  forall d, slackP w' d = slackP w d.
+Proof. exact withdraw_tx_excess. Qed.
+
+Theorem C01_excess_through_a_deposit : forall w sender funds ls ss r pid l w' d0 d1 rest,
+  sender <> PM -> aggregate_coins funds = Ok (d0 :: d1 :: rest) ->
+  run_tx w sender PM (WPm (PmProvide ls ss r pid None l)) funds = Ok w' ->
+  exists p shares minliq,
+    pool_find (w_pm w) pid = Ok p /\ 0 <= minliq /\
+    forall d, slackP w' d = slackP w d
+                + ind (String.eqb (p_lp p) d) minliq      (* the minimum liquidity minted to the pool manager at a first deposit (0 otherwise) *)
+                + ind (String.eqb PM (addr_or_default w r sender)) (ind (String.eqb (p_lp p) d) shares).
+Proof. exact provide_tx_excess. Qed.
+
+(* the single indivisible unit of an odd single-asset deposit *)
+Theorem C01_excess_through_a_single_asset_deposit : forall w sender funds ls ss r pid l deposit w',
+  sender <> PM -> aggregate_coins funds = Ok [deposit] ->
+  run_tx w sender PM (WPm (PmProvide ls ss r pid None l)) funds = Ok w' ->
+  exists p askc sim shares minliq,
+    pool_find (w_pm w) pid = Ok p /\
+    query_simulation (w_pm w) (denom_of deposit, amount_of deposit / 2) (denom_of askc) pid = Ok sim /\ 0 <= minliq /\
+    forall d, slackP w' d = slackP w d
+                + ind (String.eqb (denom_of deposit) d) (amount_of deposit mod 2)
+                + ind (String.eqb PM (pm_fee_collector (pm_cfg (w_pm w)))) (ind (String.eqb (denom_of askc) d) (sc_protocol_fee sim))
+                + ind (String.eqb (p_lp p) d) minliq
+                + ind (String.eqb PM (addr_or_default w (Some (addr_or_default w r sender)) PM)) (ind (String.eqb (p_lp p) d) shares).
+Proof. exact single_asset_tx_excess. Qed.
+
+(* tokens sent to the contract outside pool operations *)
+Theorem C01_excess_through_a_donation : forall w from amount b',
+  from <> PM -> bank_send (w_bank w) from PM amount = Ok b' ->
+  forall d, slackP (set_bank w b') d = slackP w d + camt amount d.
+Proof. exact donation_excess. Qed.
+
 Print Assumptions C01_backed_in_every_reachable_world.
 Print Assumptions C01_preserved_by_every_operation.
 Print Assumptions C01_preserved_by_every_history.
@@ -111,3 +164,8 @@ Print Assumptions C01_deposit_flow.
 Print Assumptions C01_withdraw_flow.
 Print Assumptions C01_rejected_operations_change_nothing.
 Print Assumptions C01_hypotheses_met_by_a_real_history.
+Print Assumptions C01_excess_through_a_swap.
+Print Assumptions C01_excess_through_a_withdrawal.
+Print Assumptions C01_excess_through_a_deposit.
+Print Assumptions C01_excess_through_a_single_asset_deposit.
+Print Assumptions C01_excess_through_a_donation.
